@@ -17,7 +17,7 @@ pub fn localizer(l: Loc) -> PathLocalizer {
     }
 }
 
-pub const COMPONENTS: [&str; 11] = ["m", "GameData.bin.lz", "a b", " ", "ü", "日本", "@E", "e_x", "x.", "-", "Data\\One.bin"];
+pub const COMPONENTS: [&str; 13] = ["m", "GameData.bin.lz", "a b", " ", "ü", "日本", "@E", "e_x", "x.", "-", "Data\\One.bin", "...", "Яį.bin"];
 pub const DEGENERATE: [&str; 8] = ["", "/", "..", "a/..", ".", "//", "a/../", "../"];
 
 fn check_one(c: &mut Case, l: Loc, lang: Language, path: &str) {
@@ -47,7 +47,7 @@ pub const REQUIRED: &[&str] = &["table_grid", "degenerate_paths", "fs_localized_
 
 pub fn run(cx: &mut Ctx) {
     cx.require(REQUIRED);
-    cx.rule = "exhaustive: 6 localizers x 8 languages x every path of depth 1..=4 over the components {m, GameData.bin.lz, 'a b', ' ', u-umlaut, two kanji, @E, e_x, 'x.', -, 'Data\\One.bin' (a backslash is an ordinary character on this platform)} with and without a trailing slash (16104 x 2 paths), plus the degenerate paths \"\", /, .., a/.., ., //; oracle = the literal 6x8 marker table of the statement applied to a string split at the last '/'. Filesystem part: for each supported game x language, localized write/read/exists/list on generated paths under the on-disk monitors of C12 (the file must appear at layer/<expected localized path>). non-trivial = (localizer, language, path shape) triples; the table x shape grid is exhaustive".into();
+    cx.rule = "exhaustive: 6 localizers x 8 languages x every path of depth 1..=4 over the components {m, GameData.bin.lz, 'a b', ' ', u-umlaut, two kanji, @E, e_x, 'x.', -, 'Data\\One.bin' (a backslash is an ordinary character on this platform), '...', a Cyrillic/Latin-extended name whose code points end in 0x2F} with and without a trailing slash (30940 x 2 paths), paths of every total length 200..=300 bytes and around 1 KiB / 4 KiB, plus the degenerate paths \"\", /, .., a/.., ., //; oracle = the literal 6x8 marker table of the statement applied to a string split at the last '/'. Filesystem part: for each supported game x language, localized write/read/exists/list on generated paths under the on-disk monitors of C12 (the file must appear at layer/<expected localized path>). non-trivial = (localizer, language, path shape) triples; the table x shape grid is exhaustive".into();
     let miri = cfg!(miri);
     let depth_max = if miri { 2 } else { 4 };
     // one case per (localizer, language): enumerates all shapes
@@ -88,6 +88,36 @@ pub fn run(cx: &mut Ctx) {
                     ])
                 });
             });
+            if !miri {
+                cx.case("long_paths", |c| {
+                    c.sit("long_paths_every_length_200_to_300_and_beyond");
+                    // every total input length 200..=300 (results cross 256 bytes at different inputs for
+                    // different markers), split over 2..=5 components, plus a few around 1 KiB and 4 KiB
+                    let mut rng = c.rng.clone();
+                    let mut n = 0u64;
+                    for total in (200usize..=300).chain([1020, 1024, 1030, 4090, 4096, 4100]) {
+                        for _ in 0..2 {
+                            let parts = rng.range(2, 5);
+                            let mut lens = vec![1usize; parts];
+                            let mut left = total - (parts - 1) - parts; // separators and the 1 already given
+                            while left > 0 {
+                                let i = rng.below(parts);
+                                let add = rng.range(1, left.min(120));
+                                lens[i] += add;
+                                left -= add;
+                            }
+                            let comps: Vec<String> = lens.iter().enumerate().map(|(i, l)| ((b'a' + (i as u8 % 26)) as char).to_string().repeat(*l)).collect();
+                            let p = comps.join("/");
+                            debug_assert_eq!(p.len(), total);
+                            check_one(c, l, lang, &p);
+                            check_one(c, l, lang, &format!("{}/", p));
+                            n += 2;
+                        }
+                    }
+                    c.rng = rng;
+                    c.eval(n);
+                });
+            }
             cx.case("degenerate_paths", |c| {
                 c.sit("degenerate_paths");
                 if l == Loc::NoOp {
